@@ -7,6 +7,8 @@
 (*             "changed": {kind: BOOLEAN}, "report": {kind: "true"|"false" *)
 (*             |"none"}, "printed": {kind: "modified"|"unchanged"|"none"}} *)
 (*          | {"a":"edit", "post": {kind: FileObs}} ]}                     *)
+(*   a sync event may carry its own "truth" (alternating truth kinds,      *)
+(*   Sync.tla SwitchTruth); naming another truth starts a new round        *)
 (*   FileObs = [st, b, d, a]  (observed with Python's ast, not doctrans)   *)
 (* Every event is one step; failing clauses are printed as                 *)
 (* <<"F", id, step, clause, kind>> and the state follows the observation.  *)
@@ -18,8 +20,8 @@ K  == {"argparse", "class", "function"}
 \* a history may have a second file of the truth's kind ("twin", Sync.tla Twin = TRUE): an ordinary target
 
 Traces == IF "TRACE_FILE" \in DOMAIN IOEnv THEN ndJsonDeserialize(IOEnv.TRACE_FILE) ELSE <<>>
-VARIABLES tid, l, cur, stable
-tvars == <<tid, l, cur, stable>>
+VARIABLES tid, l, cur, stable, lastTruth
+tvars == <<tid, l, cur, stable, lastTruth>>
 T == Traces[tid]
 Files == KS \o (IF "twin" \in DOMAIN T.init THEN <<"twin">> ELSE <<>>)
 Given == {T.given[i] : i \in 1..Len(T.given)}
@@ -33,17 +35,19 @@ IsWanted(b, a, v) ==
      ELSE Frame(a) = <<>>
 
 Cl(name, k, ok) == <<name, k, ok>>
+TruthOf(e) == IF "truth" \in DOMAIN e THEN e.truth ELSE T.truth
 SyncClauses(e) ==
-  LET b == cur  a == e.post  v == cur[T.truth].d  clean == e.exc = "none" /\ e.fault = "none" IN
+  LET b == cur  a == e.post  tr == TruthOf(e)  v == cur[tr].d  clean == e.exc = "none" /\ e.fault = "none"
+      settled == stable /\ lastTruth = tr IN
   << Cl("NoInternalError", "-", e.fault # "none" \/ e.exc = "none") >>
   \o FlattenSeq([i \in 1..Len(Files) |->
        LET k == Files[i] IN
-       << Cl("TruthUntouched", k, k # T.truth \/ ~e.changed[k]),
+       << Cl("TruthUntouched", k, k # tr \/ ~e.changed[k]),
           Cl("Untouched", k, k \in Given \/ ~e.changed[k]),
           Cl("StillParses", k, a[k].st # "partial"),
           Cl("FrameKept", k, (b[k].st = "mod" /\ a[k].st = "mod") => Frame(a[k]) = Frame(b[k])),
           Cl("OldOrNew", k, ~e.changed[k] \/ IsWanted(b[k], a[k], v)),
-          Cl("Idempotent", k, ~stable \/ ~e.changed[k]) >>
+          Cl("Idempotent", k, ~settled \/ ~e.changed[k]) >>
        \o (IF clean /\ k \in Given
              THEN << Cl("Agreement", k, a[k].st = "mod" /\ a[k].d = v),
                      Cl("ReportTruthful", k, e.report[k] = (IF e.changed[k] THEN "true" ELSE "false")),
@@ -51,7 +55,7 @@ SyncClauses(e) ==
                                             /\ (e.printed[k] = "unchanged" => ~e.changed[k])) >>
              ELSE << >>)])
 
-TInit == /\ tid \in 1..Len(Traces) /\ l = 1 /\ cur = Traces[tid].init /\ stable = FALSE
+TInit == /\ tid \in 1..Len(Traces) /\ l = 1 /\ cur = Traces[tid].init /\ stable = FALSE /\ lastTruth = Traces[tid].truth
 Step ==
   /\ l <= Len(T.ev)
   /\ LET e == T.ev[l] IN
@@ -60,8 +64,9 @@ Step ==
                    \A i \in 1..Len(bad) : PrintT(<<"F", T.id, l, bad[i][1], bad[i][2]>>)
               /\ cur' = e.post
               /\ stable' = (e.exc = "none" /\ e.fault = "none")
-         ELSE /\ cur' = e.post /\ stable' = FALSE
+              /\ lastTruth' = TruthOf(e)
+         ELSE /\ cur' = e.post /\ stable' = FALSE /\ UNCHANGED lastTruth
   /\ l' = l + 1 /\ UNCHANGED tid
-Done == /\ l = Len(T.ev) + 1 /\ PrintT(<<"D", T.id, Len(T.ev)>>) /\ l' = l + 1 /\ UNCHANGED <<tid, cur, stable>>
+Done == /\ l = Len(T.ev) + 1 /\ PrintT(<<"D", T.id, Len(T.ev)>>) /\ l' = l + 1 /\ UNCHANGED <<tid, cur, stable, lastTruth>>
 TraceSpec == TInit /\ [][Step \/ Done]_tvars
 =============================================================================
